@@ -173,6 +173,23 @@ def run(ctx, spec):
             k = int(np.argmin(d))
             ctx.check(bool(d[k] >= -cz_), nm + ":monotone:fine_scan",
                       "%s moves the wrong way by %.3g (cancellation floor %.3g) between r = %.6g L0 and the next scan point" % (nm, -d[k], cz_, scan[k] / L0), dict(wsc, r_over_L0=float(scan[k] / L0)))
+        # separations at and next to "round" values of x = 2 pi r / L0 (where a piecewise evaluation would switch formulas):
+        # the doubles within 3 ulp of x L0 / (2 pi) for x = 1/8 .. 128
+        xs = np.concatenate([np.arange(1, 65) * 0.5, [36.0, 40.0, 48.0, 50.0, 64.0, 80.0, 100.0, 128.0, 0.125, 0.25]])
+        rx = xs * L0 / (2 * np.pi)
+        cand = [rx]
+        up, dn = rx.copy(), rx.copy()
+        for _ in range(3):
+            up, dn = np.nextafter(up, np.inf), np.nextafter(dn, 0.0)
+            cand += [up.copy(), dn.copy()]
+        rr_x = np.sort(np.concatenate(cand))
+        ctx.case("round_x_probes", key=("roundx", r0, L0), nontrivial=True, sample={"r0": r0, "L0": L0, "points": int(rr_x.size)})
+        ctx.count("round_x_points", int(rr_x.size))
+        Dx, Bx, Dkx = F(sc.structure_function_vk(rr_x, r0, L0)), F(turb.phase_covariance(rr_x, r0, L0)), F(KL.stf_vonKarman(rr_x, L0))
+        wx = {"r0": r0, "L0": L0, "class": "2 pi r / L0 within 3 ulp of a round value"}
+        shape_check(ctx, Dx, vk.structure_function(rr_x, r0, L0), cz, 64 * 2.3e-16, "structure_function_vk", wx)
+        shape_check(ctx, Dkx, vk.structure_function(rr_x, 1.0, L0), 64 * 2.3e-16 * 2 * vk.variance(1.0, L0), 64 * 2.3e-16, "stf_vonKarman", wx)
+        ctx.close("B_vs_reference_round_x", Bx, vk.covariance(rr_x, r0, L0), 1e-3 * np.abs(vk.covariance(rr_x, r0, L0)) + cz, "phase_covariance:reference", wx, scale=vk.variance(r0, L0))
         # Kolmogorov limit: for fixed r the von Karman value rises towards 6.88 (r/r0)^(5/3) as L0 grows
         r0 = r0s[0]
         rfix = float(10 ** rng.uniform(-2, 1))
